@@ -17,6 +17,7 @@ from ast import (
     arguments,
 )
 from collections import OrderedDict
+from copy import deepcopy
 from functools import partial
 from itertools import chain
 from os import path, remove, replace
@@ -95,6 +96,8 @@ def argparse_function(
     :returns:  AST node for function definition which constructs argparse
     :rtype: ```FunctionDef```
     """
+    # never mutate the description given by the caller (it is usually shared between conversions)
+    intermediate_repr = deepcopy(intermediate_repr)
     function_name = function_name or intermediate_repr["name"]
     function_type = function_type or intermediate_repr["type"]
     internal_body = get_internal_body(
@@ -348,6 +351,8 @@ def class_(
     :returns: Class AST of the docstring
     :rtype: ```ClassDef```
     """
+    # never mutate the description given by the caller (it is usually shared between conversions)
+    intermediate_repr = deepcopy(intermediate_repr)
     returns = (
         intermediate_repr["returns"]
         if "return_type" in ((intermediate_repr or {}).get("returns") or iter(()))
@@ -476,6 +481,8 @@ def docstring(
     :returns: docstring
     :rtype: ```str```
     """
+    # never mutate the description given by the caller (it is usually shared between conversions)
+    intermediate_repr = deepcopy(intermediate_repr)
     return "\n{doc}\n\n{nl0}{params}\n{returns}\n{nl1}".format(
         doc=(fill if word_wrap else identity)(intermediate_repr["doc"]),
         nl0="" if docstring_format == "rest" else "\n",
@@ -663,6 +670,8 @@ def function(
     :returns: AST node for function definition
     :rtype: ```FunctionDef```
     """
+    # never mutate the description given by the caller (it is usually shared between conversions)
+    intermediate_repr = deepcopy(intermediate_repr)
     params_no_kwargs = tuple(
         filter(
             lambda param: not param[0].endswith("kwargs"),
